@@ -73,6 +73,11 @@ def _post(snap, res, graph, a, b, *, conditions=None):
         and len(res.conditions) == len(C)
         and list(res.conditions) == sorted(res.conditions, key=str)
     )
+    if ok and all(type(v).__name__ == "Variable" for v in (res.left, res.right, *res.conditions)):
+        try:
+            ok = bool(res.is_canonical)  # the library's own predicate must agree with the record it built
+        except Exception:  # noqa: BLE001
+            ok = False
     if not ok:
         kernel.violation(PROP, "canonical-record", f"judgement {res!r} for query ({a},{b}|{sorted(map(str, C))}) is not canonical",
                          case=case)
